@@ -213,8 +213,15 @@ def replay_path(run, fs, g, path, rng, base):
                 shutil.copytree(root, d)
                 snaps.append((i, kind, variant, d))
         fs.count, fs.kinds, fs.hook, fs.openfiles = 0, [], hook, []
+        # JSON saves alternate between the manager API and YowProfile.write_config (what the stack itself calls when the server key changes)
+        via_profile = fmt == "json" and len(trail) % 2 == 0
+        trail[-1]["api"] = "YowProfile.write_config" if via_profile else "ConfigManager.save"
         try:
-            ConfigManager().save(PROFILE, cfg, stype)
+            if via_profile:
+                from yowsup.profile.profile import YowProfile
+                YowProfile(PROFILE).write_config(cfg)
+            else:
+                ConfigManager().save(PROFILE, cfg, stype)
             err = None
         except Exception as e:
             err = e
@@ -237,8 +244,15 @@ def replay_path(run, fs, g, path, rng, base):
                 ok = False
             shutil.rmtree(d, ignore_errors=True)
         if err is None:
-            for what, label in ((PROFILE, "profile-name"),):
-                st, got = load_from(root, what)
+            for what, label in ((PROFILE, "profile-name"), (PROFILE, "YowProfile.config")):
+                if label == "YowProfile.config":
+                    try:
+                        from yowsup.profile.profile import YowProfile
+                        st, got = "ok", cfg_key(YowProfile(PROFILE).config)
+                    except Exception as e:
+                        st, got = "error", "%s: %s" % (type(e).__name__, e)
+                else:
+                    st, got = load_from(root, what)
                 run.case(("load", fmt, label, json.dumps(trail[-1]["fields"]), len(trail)))
                 if st != "ok" or got != want:
                     diff = [k for k in want if st == "ok" and got is not None and got.get(k) != want[k]]
